@@ -44,13 +44,16 @@ func init() {
 		ID: "C13", Level: "exploration",
 		Rule: "case = one history of real endorse runs (endorse.VirtualFirmware: measure a 4 KiB image, sign, commit) against one store: in-memory VCS double with workspaces and atomic commit (mem-tx), the same double writing through (mem-wt), testing/nonprod/localnonvcs on a temp dir (local), or both at once via Context.VCSs (multi). " +
 			"Cases 0 and 1 are closures: breadth-first search over abstract store states (ordered (path,image) manifest entries + which image each *.binarypb signs) for the pool 3 images x 3 candidate names x overwrite{on,off} plus 3 snapshot-mode runs, every action run from every reached state until no new state appears (mem-tx and local; thorough adds 4 images x 3 names on mem-tx and 3 images x 4 names on mem-wt). " +
-			"The other cases are random histories of 8..40 runs over pools of 2..6 images and 2..6 candidate names (plain, default, with a sub-directory, with spaces/non-ASCII), 1..2 output directories, overwrite probability 0.25/0.5/0.8, 10% snapshot-mode runs, scripted retriable commit conflicts with 0..2 retries (mem-tx) and failed endorsement-file writes (mem-wt); run timestamps are not monotonic (newer than, older than, or equal to earlier runs'; every action of the mem-tx closures also has an older-timestamp variant); local-links histories turn not-yet-existing candidate paths into symlinks to an existing endorsement file, a missing target or a directory between runs and then endorse under those names without overwrite. " +
+			"The other cases are random histories of 8..40 runs over pools of 2..6 images and 2..6 candidate names (plain, default, with a sub-directory, with spaces/non-ASCII), 1..2 output directories, overwrite probability 0.25/0.5/0.8, 10% snapshot-mode runs, scripted retriable commit conflicts with 0..2 retries (mem-tx) and failed endorsement-file writes (mem-wt); two thirds of the conflicts have a cause: another process's complete endorse run (own Context, candidate and image from the same pools, overwrite 0.7) lands in the store inside the failing submit, between the attempt and its retry, and mem-tx-race histories are a contended store where half of the runs meet such a conflict (the store then saw two sequential runs: the one that landed, then the retried one; each is judged as such); three histories in five are made by a caller that keeps ONE endorse.Context for all runs and reassigns its fields (struct: new context.Context per run; ctx: one context.Context and output.Options changed in place; ctx+buf: also one image buffer refilled in place), the others build a Context per run like the CLI; run timestamps are not monotonic (newer than, older than, or equal to earlier runs'; every action of the mem-tx closures also has an older-timestamp variant); local-links histories turn not-yet-existing candidate paths into symlinks to an existing endorsement file, a missing target or a directory between runs and then endorse under those names without overwrite. " +
 			"Oracle after every run, over the files visible through the version-control abstraction: every manifest parses; no path and no digest twice; every entry's path (relative to the manifest) names a file that decodes as a VMLaunchEndorsement whose signed golden measurement carries the entry's digest; after a successful manifest-mode run the image's SHA-384 maps to <candidate>.binarypb and that file signs this digest with this run's timestamp; after a run without overwrite every *.binarypb that existed before is byte-identical. " +
-			"non-trivial = the run met a manifest: distinct (store kind, relation of the request to the manifest before the run {fresh, path-held, digest-held, same-entry, path-and-digest-in-different-entries}, target file existed, overwrite, outcome) cells, plus every distinct abstract state the closures reached",
+			"non-trivial = the run met a manifest: distinct (store kind, relation of the request to the manifest before the run {fresh, path-held, digest-held, same-entry, path-and-digest-in-different-entries}, target file existed, overwrite, outcome) cells, plus (landed run's relation and outcome, retried run's relation, overwrite, outcome) for runs that raced, (caller mode, image differs from the Context's first, relation, outcome) for runs from a reused Context, plus every distinct abstract state the closures reached",
 		Assumptions: []string{
 			"entry paths are resolved relative to the directory of the manifest (the repository stores the basename)",
 			"the closure abstracts from create times, signature bytes and snapshot-mode files; it is exhaustive for its pool only if endorse's behaviour does not depend on those",
 			"snapshot-mode runs use image names that do not collide with manifest-mode file names; the never-replaced clause is applied to *.binarypb files only (snapshot mode rewrites <image>.signed by definition)",
+			"the transactional double is a version-control system of the kind the comment on endorse.RetrySubmit describes: a workspace is synced when it is opened, and a submit does not notice by itself that the head moved on (lost updates are possible; only scripted conflicts fail a submit)",
+			"a run that lands during another run's failed submit attempt is a run of the history like any other: seen from the store the order is the landed run, then the retried run; nothing is demanded about runs that fail",
+			"endorse.Context is a struct of exported fields filled in by the caller; a caller may keep one value and reassign Image, CandidateName, Timestamp, OutDir and the snapshot fields between runs, and may refill the image buffer in place between (never during) runs",
 			"injected faults are limited to commit conflicts on the transactional double and to the endorsement-file write on the write-through double (nothing written); a failed manifest write on a non-transactional store is outside the property",
 			"a run WITH overwrite whose candidate path is a symlink is the same two-names-one-file case as ./a and is not generated; a dangling link's target name is outside the candidate pool",
 			"candidate names that are different spellings of one file (a, ./a, x/../a) are exercised for the record only and never judged",
@@ -168,6 +171,11 @@ type action struct {
 	failWrite bool // scripted endorsement-file write failure (mem-wt)
 	tsClass   string // how the run's timestamp relates to earlier runs: "", older, equal
 	link      string // local store: the candidate path is a symlink to: file, missing, dir
+	// concurrent, if set, is another complete endorse run (own Context, as from another process)
+	// that lands in the store while this run's first submit attempt fails with a conflict (mem-tx).
+	concurrent *action
+	concTS     time.Time
+	ctxMode    string // how the caller holds the endorse.Context: "", struct, ctx, ctx+buf (evidence)
 }
 
 func (a action) String() string {
@@ -186,6 +194,9 @@ func (a action) String() string {
 	}
 	if a.link != "" {
 		s += " candidate-path-is-symlink-to-" + a.link
+	}
+	if a.concurrent != nil {
+		s += " {while the first submit attempt is in flight another run lands: " + a.concurrent.String() + "}"
 	}
 	return s
 }
@@ -214,6 +225,21 @@ type env struct {
 	oldMerges     int // accepted merges into an existing entry with a timestamp not newer than recorded ones
 	linkRefusals  int // runs without overwrite on a symlink to an existing endorsement
 	observeOnly   bool // alias histories: findings are counted, never reported as violations
+	raceRefresh   int  // retried runs that succeeded after a concurrent run refreshed a listed candidate
+	reusedChanged int  // successful runs from a reused Context whose image differs from that Context's first
+}
+
+// session is a caller that keeps one endorse.Context (and possibly one context.Context, one
+// output.Options and one image buffer) for many runs, the way a batch job or a service does:
+// set Image, CandidateName, ..., call VirtualFirmware, repeat.
+type session struct {
+	mode     string // struct: one endorse.Context, a new context.Context per run; ctx: one context.Context, options changed in place; ctx+buf: also one image buffer refilled in place
+	ec       *endorse.Context
+	opts     *output.Options
+	ctx      context.Context
+	buf      []byte
+	firstImg int
+	runs     int
 }
 
 func newEnv(c *core.Ctx) *env {
@@ -236,25 +262,11 @@ func newEnv(c *core.Ctx) *env {
 	return e
 }
 
-// endorse performs one real run.
-func (e *env) endorse(i int, gname string, w *world, a action, ts time.Time) (error, bool) {
-	ec := &endorse.Context{
-		SevSnp: &sev.SnpEndorsementRequest{LaunchVmsas: 1, Product: spb.SevProduct_SEV_PRODUCT_MILAN, ImageID: "00000000-0000-4000-8000-000000000001"},
-		ClSpec: uint64(1000 + a.img), Image: e.images[a.img], Timestamp: ts, CandidateName: a.name, OutDir: a.outDir, CommitRetries: a.retries,
-	}
-	if a.snapshot {
-		ec.SnapshotDir, ec.ImageName = a.snapDir, a.imageName
-	}
-	if len(w.stores) == 1 {
-		ec.VCS = w.stores[0].VCS()
-	} else {
-		for _, s := range w.stores {
-			ec.VCSs = append(ec.VCSs, s.VCS())
-		}
-	}
+// script arms the scripted faults of the doubles for one run.
+func script(w *world, a action) {
 	for _, s := range w.stores {
 		if m, ok := s.(*memStore); ok {
-			m.v.FailCommits, m.v.FailEndorsementWrite = 0, false
+			m.v.FailCommits, m.v.FailEndorsementWrite, m.v.OnConflict = 0, false, nil
 			if !m.v.WriteThrough {
 				m.v.FailCommits = a.conflicts
 			} else {
@@ -262,106 +274,217 @@ func (e *env) endorse(i int, gname string, w *world, a action, ts time.Time) (er
 			}
 		}
 	}
-	ctx := endorse.NewContext(output.NewContext(keys.NewContext(context.Background(), e.kc), &output.Options{Overwrite: a.ow, Quiet: true}), ec)
+}
+
+// endorse performs one real run: from a fresh endorse.Context (ses == nil) or from the long-lived
+// one of ses, whose fields are reassigned.
+func (e *env) endorse(i int, gname string, w *world, a action, ts time.Time, ses *session) (error, bool) {
+	var ec *endorse.Context
+	if ses != nil && ses.ec != nil {
+		ec = ses.ec
+	} else {
+		ec = &endorse.Context{SevSnp: &sev.SnpEndorsementRequest{LaunchVmsas: 1, Product: spb.SevProduct_SEV_PRODUCT_MILAN, ImageID: "00000000-0000-4000-8000-000000000001"}}
+		if len(w.stores) == 1 {
+			ec.VCS = w.stores[0].VCS()
+		} else {
+			for _, s := range w.stores {
+				ec.VCSs = append(ec.VCSs, s.VCS())
+			}
+		}
+	}
+	image := e.images[a.img]
+	if ses != nil && ses.mode == "ctx+buf" {
+		if ses.buf == nil {
+			ses.buf = make([]byte, len(image))
+		}
+		copy(ses.buf, image) // all pool images have one size
+		image = ses.buf
+	}
+	ec.ClSpec, ec.Image, ec.Timestamp, ec.CandidateName, ec.OutDir, ec.CommitRetries = uint64(1000+a.img), image, ts, a.name, a.outDir, a.retries
+	ec.SnapshotDir, ec.ImageName = "", ""
+	if a.snapshot {
+		ec.SnapshotDir, ec.ImageName = a.snapDir, a.imageName
+	}
+	var ctx context.Context
+	switch {
+	case ses == nil:
+		ctx = endorse.NewContext(output.NewContext(keys.NewContext(context.Background(), e.kc), &output.Options{Overwrite: a.ow, Quiet: true}), ec)
+	case ses.ec == nil:
+		ses.ec, ses.firstImg = ec, a.img
+		ses.opts = &output.Options{Overwrite: a.ow, Quiet: true}
+		ses.ctx = endorse.NewContext(output.NewContext(keys.NewContext(context.Background(), e.kc), ses.opts), ec)
+		ctx = ses.ctx
+	case ses.mode == "struct":
+		ctx = endorse.NewContext(output.NewContext(keys.NewContext(context.Background(), e.kc), &output.Options{Overwrite: a.ow, Quiet: true}), ec)
+	default:
+		ses.opts.Overwrite = a.ow
+		ctx = ses.ctx
+	}
+	if ses != nil {
+		ses.runs++
+	}
 	var err error
 	m := e.c.Guard(i, entryPoint, gname, core.Budget{}, func() { err = endorse.VirtualFirmware(ctx) })
 	return err, m.Panicked
 }
 
+// landed is a concurrent run that went through while another run's submit attempt was in flight.
+type landed struct {
+	a         action
+	pre, post map[string][]byte
+	err       error
+	panicked  bool
+}
+
 // stepOn runs one action on the world, judges every store, records evidence. It returns the
 // number of findings.
-func (e *env) stepOn(i int, gname string, w *world, a action, ts time.Time, hist []string) int {
-	c := e.c
+func (e *env) stepOn(i int, gname string, w *world, a action, ts time.Time, hist []string, ses *session) int {
 	pres := make([]map[string][]byte, len(w.stores))
 	for k, s := range w.stores {
 		pres[k] = s.Snapshot()
 	}
-	err, panicked := e.endorse(i, gname, w, a, ts)
+	script(w, a)
+	var land *landed
+	if a.concurrent != nil {
+		ms := w.stores[0].(*memStore)
+		ms.v.OnConflict = func() {
+			l := &landed{a: *a.concurrent, pre: ms.Snapshot()}
+			l.err, l.panicked = e.endorse(i, gname, w, l.a, a.concTS, nil)
+			l.post = ms.Snapshot()
+			land = l
+		}
+	}
+	err, panicked := e.endorse(i, gname, w, a, ts, ses)
 	nf := 0
 	if panicked {
 		nf++
 	}
-	for k, s := range w.stores {
-		post := s.Snapshot()
-		st := &step{outDir: a.outDir, base: a.base(), digest: e.digests[a.img], overwrite: a.ow, snapshot: a.snapshot, ts: ts, err: err}
-		class := mergeClass(pres[k], st)
-		_, targetExists := pres[k][path.Join(a.outDir, st.base)]
-		fs := judge(pres[k], post, st, &e.st)
-		for _, f := range fs {
+	if ses != nil {
+		a.ctxMode = ses.mode
+	}
+	var lclass, loutcome string
+	if land != nil {
+		// Seen from the store this is a sequential history: the concurrent run, then this run.
+		if land.panicked {
 			nf++
-			if e.observeOnly {
-				c.Count("alias-observation/"+f.rule, 1)
-				c.Note("alias names (not judged): rule %s fired, e.g. after [%s]: %s", f.rule, strings.Join(append(append([]string(nil), hist...), a.String()), " ; "), f.detail)
-				continue
-			}
-			wit := map[string]any{"store": s.Kind(), "history": append(append([]string(nil), hist...), a.String()), "run_error": fmt.Sprint(err),
-				"state_before": abstractKey(pres[k], e.names), "state_after": abstractKey(post, e.names)}
-			if mb, ok := post[path.Join(a.outDir, manifestName)]; ok && len(mb) < 4000 {
-				wit["manifest_after"] = string(mb)
-			}
-			if ms, ok := s.(*memStore); ok {
-				wit["vcs_calls"] = tail(ms.v.Log, 12)
-			}
-			c.Violate(core.Violation{Kind: "oracle", Entry: entryPoint, Site: f.rule, Gen: gname, Case: i,
-				Detail: fmt.Sprintf("[%s, after run %d: %s] %s", s.Kind(), len(hist)+1, a.String(), f.detail), Witness: wit})
 		}
-		if e.observeOnly {
-			continue
-		}
-		// evidence
-		outcome := "ok"
-		switch {
-		case err == nil:
-		case a.failWrite || (a.conflicts > a.retries):
-			outcome = "failed-injected"
-		case !a.snapshot && targetExists && !a.ow:
-			outcome = "refused-existing-without-overwrite"
-		case a.link == "dir" || a.link == "missing":
-			outcome = "failed-on-non-regular-target"
-		case len(w.stores) > 1:
-			outcome = "failed-in-other-store"
-		default:
-			outcome = "failed-other"
-			c.Note("unexpected error (not judged): %s on %s: %v", a.String(), s.Kind(), err)
-		}
-		c.Count("runs/"+outcome, 1)
-		if a.snapshot {
-			c.Count("snapshot-mode-runs", 1)
-			c.Cell("%s|snapshot-mode|%s", s.Kind(), outcome)
-			continue
-		}
-		if outcome == "ok" {
-			e.acceptedClass[class] = true
-		}
-		if outcome == "refused-existing-without-overwrite" {
-			e.refusals++
-			if a.link == "file" {
-				e.linkRefusals++
+		var n int
+		n, lclass, loutcome = e.account(i, gname, w, w.stores[0], land.a, a.concTS, land.err, land.pre, land.post,
+			append(append([]string(nil), hist...), "(the first submit attempt of the next run ["+a.base()+"] is in flight and will fail with a conflict)"), "+landed-during-conflict")
+		nf += n
+		pres[0] = land.post
+		hist = append(append([]string(nil), hist...), "(concurrent) "+land.a.String())
+		a.concurrent = nil
+	}
+	for k, s := range w.stores {
+		n, class, outcome := e.account(i, gname, w, s, a, ts, err, pres[k], s.Snapshot(), hist, "")
+		nf += n
+		if land != nil && !e.observeOnly {
+			e.c.Count("concurrent-landings/"+loutcome+"/then-retried-run-"+outcome, 1)
+			e.c.Cell("race|landed=%s,%s|retried=%s,overwrite=%v,%s", lclass, loutcome, class, a.ow, outcome)
+			if loutcome == "ok" && outcome == "ok" && (lclass == "path-held" || lclass == "path-and-digest-in-different-entries") {
+				e.raceRefresh++
 			}
 		}
-		if !a.ow {
-			for kk := range pres[k] {
-				if strings.HasSuffix(kk, ".binarypb") {
-					e.keptFiles++
-				}
+		if ses != nil && ses.runs > 1 && !e.observeOnly {
+			e.c.Count("runs-from-reused-context/"+ses.mode+"/"+outcome, 1)
+			e.c.Cell("reused-context|%s|image-differs-from-first=%v|%s|%s", ses.mode, a.img != ses.firstImg, class, outcome)
+			if outcome == "ok" && !a.snapshot && a.img != ses.firstImg {
+				e.reusedChanged++
 			}
 		}
-		if a.conflicts > 0 && err == nil {
-			c.Count("runs/ok-after-commit-retry", 1)
-		}
-		kind := s.Kind()
-		if a.link != "" {
-			kind += "+symlink-to-" + a.link
-			c.Count("symlink-candidate-runs/"+a.link+"/"+outcome, 1)
-		}
-		if a.tsClass != "" && outcome == "ok" && class != "fresh" {
-			c.Count("merges-with-"+a.tsClass+"-timestamp/"+class, 1)
-			e.oldMerges++
-		}
-		c.Cell("%s|%s|target-exists=%v|overwrite=%v|ts=%s|%s", kind, class, targetExists, a.ow, a.tsClass, outcome)
-		c.Count("merge-class/"+class+"/"+outcome, 1)
 	}
 	return nf
+}
+
+// account judges one run on one store (pre, post: the files visible before and after it) and
+// records the evidence. It returns the number of findings, the merge class and the outcome.
+func (e *env) account(i int, gname string, w *world, s store, a action, ts time.Time, err error, pre, post map[string][]byte, hist []string, tag string) (int, string, string) {
+	c := e.c
+	nf := 0
+	st := &step{outDir: a.outDir, base: a.base(), digest: e.digests[a.img], overwrite: a.ow, snapshot: a.snapshot, ts: ts, err: err}
+	class := mergeClass(pre, st)
+	_, targetExists := pre[path.Join(a.outDir, st.base)]
+	fs := judge(pre, post, st, &e.st)
+	for _, f := range fs {
+		nf++
+		if e.observeOnly {
+			c.Count("alias-observation/"+f.rule, 1)
+			c.Note("alias names (not judged): rule %s fired, e.g. after [%s]: %s", f.rule, strings.Join(append(append([]string(nil), hist...), a.String()), " ; "), f.detail)
+			continue
+		}
+		wit := map[string]any{"store": s.Kind(), "history": append(append([]string(nil), hist...), a.String()), "run_error": fmt.Sprint(err),
+			"state_before": abstractKey(pre, e.names), "state_after": abstractKey(post, e.names)}
+		if a.ctxMode != "" {
+			wit["caller"] = "every run of this history is made from one long-lived endorse.Context (" + a.ctxMode + "), fields reassigned before each run"
+		}
+		if mb, ok := post[path.Join(a.outDir, manifestName)]; ok && len(mb) < 4000 {
+			wit["manifest_after"] = string(mb)
+		}
+		if ms, ok := s.(*memStore); ok {
+			wit["vcs_calls"] = tail(ms.v.Log, 24)
+		}
+		c.Violate(core.Violation{Kind: "oracle", Entry: entryPoint, Site: f.rule, Gen: gname, Case: i,
+			Detail: fmt.Sprintf("[%s, after run %d: %s] %s", s.Kind(), len(hist)+1, a.String(), f.detail), Witness: wit})
+	}
+	// evidence
+	outcome := "ok"
+	switch {
+	case err == nil:
+	case a.failWrite || (a.conflicts > a.retries):
+		outcome = "failed-injected"
+	case !a.snapshot && targetExists && !a.ow:
+		outcome = "refused-existing-without-overwrite"
+	case a.link == "dir" || a.link == "missing":
+		outcome = "failed-on-non-regular-target"
+	case len(w.stores) > 1:
+		outcome = "failed-in-other-store"
+	default:
+		outcome = "failed-other"
+		if !e.observeOnly {
+			c.Note("unexpected error (not judged): %s on %s: %v", a.String(), s.Kind(), err)
+		}
+	}
+	if e.observeOnly {
+		return nf, class, outcome
+	}
+	c.Count("runs/"+outcome, 1)
+	if a.snapshot {
+		c.Count("snapshot-mode-runs", 1)
+		c.Cell("%s|snapshot-mode|%s", s.Kind()+tag, outcome)
+		return nf, "snapshot-mode", outcome
+	}
+	if outcome == "ok" {
+		e.acceptedClass[class] = true
+	}
+	if outcome == "refused-existing-without-overwrite" {
+		e.refusals++
+		if a.link == "file" {
+			e.linkRefusals++
+		}
+	}
+	if !a.ow {
+		for kk := range pre {
+			if strings.HasSuffix(kk, ".binarypb") {
+				e.keptFiles++
+			}
+		}
+	}
+	if a.conflicts > 0 && err == nil {
+		c.Count("runs/ok-after-commit-retry", 1)
+	}
+	kind := s.Kind() + tag
+	if a.link != "" {
+		kind += "+symlink-to-" + a.link
+		c.Count("symlink-candidate-runs/"+a.link+"/"+outcome, 1)
+	}
+	if a.tsClass != "" && outcome == "ok" && class != "fresh" {
+		c.Count("merges-with-"+a.tsClass+"-timestamp/"+class, 1)
+		e.oldMerges++
+	}
+	c.Cell("%s|%s|target-exists=%v|overwrite=%v|ts=%s|%s", kind, class, targetExists, a.ow, a.tsClass, outcome)
+	c.Count("merge-class/"+class+"/"+outcome, 1)
+	return nf, class, outcome
 }
 
 func tail(s []string, n int) []string {
@@ -419,7 +542,7 @@ func (e *env) closure(i int, kind string, nimg int, cands []string, older bool) 
 			if a.tsClass == "older" { // older than every "newer" run, unique by its nanoseconds
 				when = time.Unix(1500000000, ts-1700000000)
 			}
-			if e.stepOn(i, gname, w, a, when, n.hist) > 0 {
+			if e.stepOn(i, gname, w, a, when, n.hist, nil) > 0 {
 				bad++
 			}
 			transitions++
@@ -471,11 +594,23 @@ func (e *env) history(i int, kind string) {
 	outs := pick(r, outDirPool, 1+r.IntN(2))
 	length := 8 + r.IntN(33)
 	pOw := []float64{0.25, 0.5, 0.8}[r.IntN(3)]
-	gname := fmt.Sprintf("history store=%s images=%v candidates=%q out_dirs=%q runs=%d p(overwrite)=%.2f", kind, imgs, names, outs, length, pOw)
+	// who calls: a new endorse.Context per run (the CLI), or one long-lived Context whose fields
+	// are reassigned before each run (batch job, service)
+	var ses *session
+	caller := "fresh-context-per-run"
+	if m := r.IntN(5); m >= 2 {
+		ses = &session{mode: []string{"struct", "ctx", "ctx+buf"}[m-2]}
+		caller = "one-reused-context(" + ses.mode + ")"
+	}
+	gname := fmt.Sprintf("history store=%s images=%v candidates=%q out_dirs=%q runs=%d p(overwrite)=%.2f caller=%s", kind, imgs, names, outs, length, pOw, caller)
 	c.Begin(i, gname, entryPoint, nil)
 	links := kind == "local-links"
 	if links {
 		kind = "local"
+	}
+	racy := kind == "mem-tx-race" // contended store: half of the runs meet a conflict caused by another process's run
+	if racy {
+		kind = "mem-tx"
 	}
 	w := newWorld(kind)
 	defer w.close()
@@ -528,8 +663,16 @@ func (e *env) history(i int, kind string) {
 		}
 		switch kind {
 		case "mem-tx":
-			if r.IntN(7) == 0 {
+			if r.IntN(7) == 0 || (racy && r.IntN(2) == 0) {
 				a.conflicts, a.retries = 1+r.IntN(2), r.IntN(3)
+				if racy && r.IntN(2) == 0 {
+					a.retries = a.conflicts
+				}
+				if racy || r.IntN(3) > 0 {
+					// the conflict has a cause: another process's run lands while the first attempt is in flight
+					n := action{img: imgs[r.IntN(len(imgs))], name: names[r.IntN(len(names))], ow: r.IntN(10) < 7, outDir: a.outDir}
+					a.concurrent, a.concTS = &n, time.Unix(1700000000+int64(s), 500_000_000)
+				}
 			}
 		case "mem-wt":
 			if !a.snapshot && r.IntN(7) == 0 {
@@ -541,7 +684,7 @@ func (e *env) history(i int, kind string) {
 			// so never generated. Without overwrite nothing that exists may change.
 			a.link, a.ow = k, false
 		}
-		nf := e.stepOn(i, gname, w, a, when, hist)
+		nf := e.stepOn(i, gname, w, a, when, hist, ses)
 		hist = append(hist, a.String())
 		if nf > 0 {
 			break // one refuted history is enough; later runs would only repeat it
@@ -550,7 +693,11 @@ func (e *env) history(i int, kind string) {
 	if links {
 		kind = "local-links"
 	}
+	if racy {
+		kind = "mem-tx-race"
+	}
 	c.Count("histories/"+kind, 1)
+	c.Count("histories-by-caller/"+caller, 1)
 	c.Max("history-length", int64(len(hist)))
 	if i%17 == 0 {
 		c.Sample(map[string]any{"case": i, "history": gname, "first_runs": hist[:min(4, len(hist))], "final_state": abstractKey(w.stores[0].Snapshot(), e.names)})
@@ -615,7 +762,7 @@ func (e *env) aliasHistory(i int) {
 	var hist []string
 	for s := 0; s < 12; s++ {
 		a := action{img: r.IntN(3), name: names[r.IntN(len(names))], ow: r.IntN(4) != 0, outDir: "out"}
-		nf := e.stepOn(i, gname, w, a, time.Unix(1700000000+int64(s), 0), hist)
+		nf := e.stepOn(i, gname, w, a, time.Unix(1700000000+int64(s), 0), hist, nil)
 		hist = append(hist, a.String())
 		if nf > 0 {
 			break
@@ -633,7 +780,7 @@ func (e *env) selfTest() bool {
 	w := newWorld("mem-tx")
 	const sentinel = -1
 	for k, a := range []action{{img: 0, name: "a", outDir: "out"}, {img: 1, name: "b", outDir: "out"}} {
-		if err, _ := e.endorse(sentinel, "oracle self-test", w, a, time.Unix(1600000000+int64(k), 0)); err != nil {
+		if err, _ := e.endorse(sentinel, "oracle self-test", w, a, time.Unix(1600000000+int64(k), 0), nil); err != nil {
 			return false
 		}
 	}
@@ -714,9 +861,9 @@ func (e *env) selfTest() bool {
 func run(c *core.Ctx) {
 	e := newEnv(c)
 	selfOK := e.selfTest()
-	nh := c.N(400, 4000)
+	nh := c.N(480, 4800)
 	nalias := c.N(8, 40)
-	kinds := []string{"mem-tx", "local", "mem-wt", "multi", "local-links"}
+	kinds := []string{"mem-tx", "local", "mem-wt", "multi", "local-links", "mem-tx-race"}
 	const nclosure = 4
 	total := nclosure + nh + nalias
 	for i := 0; i < total; i++ {
@@ -764,4 +911,6 @@ func run(c *core.Ctx) {
 	c.Floor("merge-with-older-or-equal-timestamp-accepted", e.oldMerges > 0)
 	c.Floor("run-without-overwrite-on-symlink-to-existing-endorsement-observed", e.linkRefusals > 0)
 	c.Floor("existing-files-survived-runs-without-overwrite", e.keptFiles > 0)
+	c.Floor("retried-run-succeeded-after-concurrent-refresh-of-a-listed-candidate", e.raceRefresh > 0)
+	c.Floor("run-from-reused-context-with-another-image-than-its-first-succeeded", e.reusedChanged > 0)
 }
